@@ -11,6 +11,9 @@
 #[path = "../docgen.rs"]
 #[allow(dead_code)]
 mod docgen;
+#[path = "../crypt_ref.rs"]
+#[allow(dead_code)]
+mod crypt_ref;
 #[path = "../rng.rs"]
 #[allow(dead_code)]
 mod rng;
